@@ -9,6 +9,12 @@ pub mod ideal {
     use core::cmp::Ordering;
     use super::fax::{i2f, f2i, fneg_spec, fabs_spec};
     pub uninterp spec fn R(x: f32) -> real;
+    /// the real number an integer becomes when converted to f32 (`i as f32`).  Kept abstract (monotone, sign-preserving,
+    /// 0 -> 0) in group a3: the conversion rounds, so `cvt(a) - cvt(b)` is NOT assumed equal to `cvt(a - b)` -- a change
+    /// that converts two timestamps separately and subtracts the floats is thereby distinguishable from one that
+    /// subtracts the integers first.  Units whose statement needs exact integer conversion add group a3_int_exact.
+    pub uninterp spec fn cvt(i: int) -> real;
+    pub open spec fn secs(ns: int) -> real { cvt(ns) / 1000000000real }
     pub broadcast axiom fn ax_r_add(a: f32, b: f32) ensures #[trigger] R(a.add_spec(b)) == R(a) + R(b);
     pub broadcast axiom fn ax_r_sub(a: f32, b: f32) ensures #[trigger] R(a.sub_spec(b)) == R(a) - R(b);
     pub broadcast axiom fn ax_r_mul(a: f32, b: f32) ensures #[trigger] R(a.mul_spec(b)) == R(a) * R(b);
@@ -17,7 +23,10 @@ pub mod ideal {
     pub broadcast axiom fn ax_r_abs(a: f32) ensures #[trigger] R(fabs_spec(a)) == (if R(a) >= 0real { R(a) } else { -R(a) });
     // float -> integer cast truncates toward zero; stated for the non-negative range (used for durations)
     pub broadcast axiom fn ax_r_f2i(a: f32) requires R(a) >= 0real ensures (#[trigger] f2i(a)) as real <= R(a), R(a) < f2i(a) as real + 1real;
-    pub broadcast axiom fn ax_r_i2f(i: i64) ensures #[trigger] R(i2f(i)) == i as real;
+    pub broadcast axiom fn ax_r_i2f(i: i64) ensures #[trigger] R(i2f(i)) == cvt(i as int);
+    pub broadcast axiom fn ax_cvt_sign(i: int) ensures i == 0 ==> #[trigger] cvt(i) == 0real, i > 0 ==> cvt(i) > 0real, i < 0 ==> cvt(i) < 0real;
+    pub broadcast axiom fn ax_cvt_mono(i: int, j: int) requires i <= j ensures #[trigger] cvt(i) <= #[trigger] cvt(j);
+    pub broadcast axiom fn ax_cvt_exact(i: int) ensures #[trigger] cvt(i) == i as real;
     pub broadcast axiom fn ax_r_eq(a: f32, b: f32) ensures #[trigger] a.eq_spec(&b) == (R(a) == R(b));
     pub broadcast axiom fn ax_r_cmp(a: f32, b: f32) ensures
         (#[trigger] a.partial_cmp_spec(&b)) == (if R(a) < R(b) { Some(Ordering::Less) } else if R(a) == R(b) { Some(Ordering::Equal) } else { Some(Ordering::Greater) });
@@ -25,6 +34,7 @@ pub mod ideal {
     pub broadcast axiom fn ax_r_lits() ensures
         #[trigger] R(0.0f32) == 0real, R(1.0f32) == 1real, R(2.0f32) == 2real, R(3.0f32) == 3real, R(0.5f32) == 0.5real,
         R(-1.0f32) == -1real, R(1_000_000_000.0f32) == 1000000000real;
-    pub broadcast group a3 { ax_r_abs, ax_r_f2i, ax_r_add, ax_r_sub, ax_r_mul, ax_r_div, ax_r_neg, ax_r_i2f, ax_r_eq, ax_r_cmp, ax_r_lits }
+    pub broadcast group a3 { ax_r_abs, ax_r_f2i, ax_r_add, ax_r_sub, ax_r_mul, ax_r_div, ax_r_neg, ax_r_i2f, ax_cvt_sign, ax_cvt_mono, ax_r_eq, ax_r_cmp, ax_r_lits }
+    pub broadcast group a3_int_exact { ax_cvt_exact }
 }
-use ideal::R;
+use ideal::{R, cvt, secs};
